@@ -23,7 +23,7 @@ package template
 
 //@ func template.templateFuncs[ImportStatement]
 //@   props C11
-//@   requires imprt != nil
+//@   requires imprt != nil && imprt.pkg != nil
 //@   ensures plain: imprt.Alias == "" ==> r == "\"" + pkgPathOf(imprt) + "\""
 //@   ensures aliased: imprt.Alias != "" ==> r == imprt.Alias + " \"" + pkgPathOf(imprt) + "\""
 
@@ -93,3 +93,11 @@ package template
 //@ schema resetall resetall-clears-every-list {C08} ResetCalls() empties calls.M for every method M
 //@ schema resetall reset-never-panics {C08} reset methods cannot panic
 //@ schema resetall reset-invokes-nothing {C08} reset methods call no function value
+
+//@ func template.Data.MocksSomeMethod
+//@   props C11
+//@   safety C19
+//@   loop 1 invariant idx: rangeIndex >= -1
+//@   loop 1 invariant none-so-far: forall(k, 0 <= k && k <= rangeIndex ==> len(d.Mocks[k].Methods) == 0)
+//@   ensures true-has-witness: r ==> exists(k, 0 <= k && k < len(d.Mocks) && len(d.Mocks[k].Methods) > 0)
+//@   ensures false-means-none: !r ==> forall(k, 0 <= k && k < len(d.Mocks) ==> len(d.Mocks[k].Methods) == 0)
